@@ -85,7 +85,7 @@ func c07Specs() []*edt.Spec {
 			if sb == nil || len(sb.Args) == 0 {
 				return fn + ": the scalar is not decoded with SetBits (all 255 bits, no reduction)"
 			}
-			if m := clampOf(sb.Args[len(sb.Args)-1], "$in", "sel($in, [0])", "sel($in, [31])"); m != "" {
+			if m := clampOf(sb.Args[len(sb.Args)-1], "$in", "$in[0]", "$in[31]"); m != "" {
 				return m
 			}
 			if _, w := p.Final["$in"]; w {
@@ -366,6 +366,9 @@ func normComm(s string) string {
 	}
 	if op == "Element.Square" && len(args) == 2 && args[0] == args[1] {
 		args = args[:1] // squared in place: the receiver is the operand
+	}
+	if op == "Element.Set" && len(args) == 1 {
+		return args[0] // a copy denotes the value copied
 	}
 	return op + "(" + strings.Join(args, ", ") + ")"
 }
